@@ -544,3 +544,32 @@ Fixpoint p_groups_ftoks (cur : bytes) (gs : list (list (bytes * bytes))) : list 
   | g :: r => p_group_ftoks (nilb cur) g ++ p_groups_ftoks (p_add_group cur g) r
   end.
 Definition pftok_fields (ts : list pftok) : list (bytes * bytes) := map (fun t => match t with PFFld _ n v => (n, v) end) ts.
+
+(** ** Concurrent [Span::record] calls on ONE span ([fmt::Subscriber::on_record])
+
+    Thread [t] records the group [gs t], once.  [atomic = true] is the code: the span's extensions WRITE lock
+    is taken before the stored [FormattedFields] are read and held until [add_fields] has appended in place —
+    one step.  [atomic = false] is the read-copy-replace form (clone the stored text under a read lock, append
+    to the private copy with no lock held, take the write lock to replace): two steps, between which other
+    threads run.  Which one the tree has is read from the source (TVGen.Gen_fmtbuf.on_record_atomic).
+    [add] is the field formatter's [add_fields] ([add_group] for DefaultFields, [p_add_group] for Pretty). *)
+Record rstate := RS {
+  r_stored : bytes;                  (* the span's FormattedFields *)
+  r_done : list nat;                 (* threads whose call has returned, in order *)
+  r_copy : list (nat * bytes)        (* not atomic: the private copy a thread took *)
+}.
+
+Fixpoint rlookup (t : nat) (l : list (nat * bytes)) : option bytes :=
+  match l with [] => None | (k, b) :: r => if Nat.eqb k t then Some b else rlookup t r end.
+
+Definition rec_step (atomic : bool) (add : bytes -> list (bytes * bytes) -> bytes) (gs : nat -> list (bytes * bytes))
+  (s : rstate) (t : nat) : rstate :=
+  if existsb (Nat.eqb t) (r_done s) then s
+  else if atomic then RS (add (r_stored s) (gs t)) (r_done s ++ [t]) (r_copy s)
+  else match rlookup t (r_copy s) with
+       | None => RS (r_stored s) (r_done s) ((t, r_stored s) :: r_copy s)
+       | Some c => RS (add c (gs t)) (r_done s ++ [t]) (r_copy s)
+       end.
+
+Definition rec_run (atomic : bool) add gs (init : bytes) (sched : list nat) : rstate :=
+  fold_left (rec_step atomic add gs) sched (RS init [] []).
